@@ -101,6 +101,49 @@ pub fn deep_messages(seed: u64) -> Vec<AMsg> {
             out.push(AMsg { ver: 0x0200, code: 0x000b, id: 7 + k as u32, groups });
         }
     }
+    // wide sets: 3..9 elements of mixed kinds, a collection at every position, also inside members
+    for w in 3..=9usize {
+        for pos in 0..w {
+            let mut vs: Vec<AV> = (0..w).map(|i| gen_av(if (i + w) % 2 == 0 { "I" } else { "K" }, &mut r)).collect();
+            vs[pos] = AV::Coll(vec![("m".into(), AV::Set((0..w).map(|i| gen_av(if i % 2 == 0 { "K" } else { "I" }, &mut r)).collect())), ("n".into(), gen_av("I", &mut r))]);
+            let groups = vec![
+                AGroup { tag: 1, attrs: vec![("wide".into(), AV::Set(vs.clone())), ("attributes-charset".into(), AV::Str("Charset", "utf-8".into()))] },
+                AGroup { tag: 2, attrs: vec![("wide".into(), AV::Set(vs)), ("job-id".into(), AV::Int(w as i32))] },
+            ];
+            out.push(AMsg { ver: 0x0101, code: 0, id: 0x8000_0000 + w as u32, groups });
+        }
+    }
+    // boundary lengths of every string kind (sign bit of a 16-bit length, 255/256, the 16-bit limit)
+    for (ki, kind) in STR_KINDS.iter().enumerate() {
+        for len in [0usize, 1, 127, 128, 255, 256, 32767, 32768, 65534, 65535] {
+            let body: String = (0..len).map(|i| (b'a' + ((i * 7 + ki) % 26) as u8) as char).collect();
+            let mut attrs = vec![("v".to_string(), AV::Str(kind, body.clone()))];
+            if len >= 8 {
+                // the same length reached with multi-byte characters and with a trailing / embedded NUL
+                let mut mb = "é".repeat(len / 2);
+                if mb.len() < len {
+                    mb.push('x');
+                }
+                attrs.push(("mb".to_string(), AV::Str(kind, mb)));
+                let mut nul = body.clone();
+                nul.replace_range(len - 1..len, "\u{0}");
+                attrs.push(("nul".to_string(), AV::Str(kind, nul)));
+            }
+            out.push(AMsg { ver: 0x0200, code: 2, id: len as u32, groups: vec![AGroup { tag: 1, attrs }] });
+        }
+    }
+    for total in [65535usize, 65534, 300] {
+        // with-language values whose outer length hits the limit: language + text + 4 = total
+        for ll in [0usize, 2, 255, 256] {
+            if ll + 4 > total {
+                continue;
+            }
+            let l = "l".repeat(ll);
+            let t = "t".repeat(total - 4 - ll);
+            out.push(AMsg { ver: 0x0200, code: 2, id: total as u32, groups: vec![AGroup { tag: 1, attrs: vec![
+                ("t".to_string(), AV::Lang("TextWithLanguage", l.clone(), t.clone())), ("n".to_string(), AV::Lang("NameWithLanguage", l, t))] }] });
+        }
+    }
     out
 }
 
